@@ -102,11 +102,22 @@ def constructive(rng, case, idx):
         if not solute_pool:
             continue
         solute = rng.choice(solute_pool)
-        comp = rng.choice(['binary', 'binary', 'multi', 'binary+enz', 'solute_only', 'multi+enz', 'other_solvent'])
+        comp = rng.choice(['binary', 'binary', 'multi', 'binary+enz', 'solute_only', 'multi+enz', 'other_solvent', 'near_neat'])
         init = [(solute, spell(rng, 10 ** rng.uniform(-6, -2), 'mol'))]
+        dense_liq = [s_ for s_ in solute_pool if s_.is_liquid() and s_.density > 1.15 * solvent.density]
+        if comp == 'near_neat':
+            # a nearly neat liquid solute that is denser than the solvent: mass-per-volume targets between the two densities
+            if not dense_liq:
+                comp = 'binary'
+            else:
+                solute = rng.choice(dense_liq)
+                init = [(solute, spell(rng, 10 ** rng.uniform(-3, -1.5), 'L'))]
+                M.bucket('C11/near_neat_dense_liquid_solute')
         if comp != 'solute_only':
             holder = solvent if comp != 'other_solvent' else rng.choice([l for l in liqs if l != solute] or liqs)
-            if holder != solute:
+            if holder != solute and comp == 'near_neat':
+                init.append((holder, spell(rng, R.parse_quantity(init[0][1])[0] * rng.uniform(0.02, 0.1), 'L')))
+            elif holder != solute:
                 init.append((holder, spell(rng, 10 ** rng.uniform(-5, -1), 'L')))
         if comp.startswith('multi'):
             for o in rng.sample([s for s in w.subs if not s.is_enzyme() and s not in (solute, solvent)] or [], k=min(
@@ -125,12 +136,16 @@ def constructive(rng, case, idx):
         vol0 = R.measure(c0.contents, 'L')
         # ---------------- dilute, constructively
         num, den = rng.choice(PAIRS)
+        if comp == 'near_neat':
+            num, den = 'g', 'L'
         if R.per(solute, num) == 0 or R.per(solvent, den) == 0 or solvent == solute:
             num, den = 'mol', 'L'
             if R.per(solvent, 'L') == 0:
                 continue
         x = 10 ** rng.uniform(-6, -1) / max(R.per(solvent, 'L'), 1e-12) * rng.uniform(0.5, 2)     # canonical solvent to add
         x = min(x, 1e4)
+        if comp == 'near_neat':
+            x = R.measure(c0.contents, 'L') * rng.uniform(0.02, 0.15) / max(R.per(solvent, 'L'), 1e-12)   # stays near neat
         top = R.canon(solute, c0.contents[solute]) * R.per(solute, num)
         bottom = R.measure(c0.contents, den)
         target = top / (bottom + x * R.per(solvent, den))
